@@ -179,6 +179,21 @@ class ScriptedBackend(TrialBackend):
         finally:
             self.in_stop_all = False
 
+    def mid_poll(self, t):
+        """the job of trial t prints its remaining reports and exits *while* the backend is polling it (between the
+        backend's reads of its log and of its process status); only offered when self.midpoll is set"""
+        if not getattr(self, "midpoll", False) or self.proc.get(t) != ALIVE or not self.todo.get(t):
+            return False
+        if self.ch.choose("midpoll", 2) == 0:
+            return False
+        while self.todo[t]:
+            self._emit(t)
+        self.proc[t] = EXITED
+        self.shown[t] = Status.completed
+        self.lagged.discard(t)
+        self.log.append(("exit", t, self.run_idx[t]))
+        return True
+
     # ----------------------------------------------------------------- emission
     def _emit(self, t, late=False):
         m = dict(self.todo[t].pop(0))
@@ -288,7 +303,7 @@ class _FakeProcess:
 
 
 def make_scripted_local_backend(chooser, spec, n_workers, profile=None, delete_checkpoints=False, fault_budget=0,
-                                late_results=True, faults=("crash",), log=None):
+                                late_results=True, faults=("crash",), log=None, midpoll=False):
     """ScriptedLocalBackend(LocalBackend): keeps the *real* file logic of LocalBackend - std.out written as tagged report
     lines and read back through stdout()/retrieve, pause/stop marker files and _read_status, shutil checkpoint copy/delete,
     busy-candidate bookkeeping - and only replaces subprocess.Popen by scripted workers (a ScriptedBackend instance used as
@@ -311,6 +326,7 @@ def make_scripted_local_backend(chooser, spec, n_workers, profile=None, delete_c
             self.sim = ScriptedBackend(chooser, spec, n_workers, profile=profile, delete_checkpoints=False,
                                        fault_budget=fault_budget, late_results=late_results, faults=faults, log=log)
             self.log = self.sim.log
+            self.sim.midpoll = midpoll
             self.written = {}
             self._how = "stop"
             self._in_stop_all = False
@@ -379,7 +395,28 @@ def make_scripted_local_backend(chooser, spec, n_workers, profile=None, delete_c
             if not self._in_stop_all:
                 self.sim._all_trial_results([t for t in trial_ids])
                 self._sync_files()
-            return super()._all_trial_results(trial_ids)
+            self._polling, self._mid_done = not self._in_stop_all, set()
+            try:
+                return super()._all_trial_results(trial_ids)
+            finally:
+                self._polling = False
+
+        # LocalBackend reads a trial's process status and its log one after the other: the job may print and exit in between
+        def _between_reads(self, t):
+            if getattr(self, "_polling", False) and t not in self._mid_done:
+                self._mid_done.add(t)
+                if self.sim.mid_poll(t):
+                    self._sync_files()
+
+        def _read_status(self, trial_id):
+            st = super()._read_status(trial_id)
+            self._between_reads(trial_id)
+            return st
+
+        def stdout(self, trial_id):
+            out = super().stdout(trial_id)
+            self._between_reads(trial_id)
+            return out
 
         def _kill_process(self, trial_id):
             self.sim._kill(trial_id, self._how)
